@@ -5,3 +5,4 @@ import Bmc.Proofs.C10
 #print axioms Bmc.Proofs.C10.sessionless_send_refines
 #print axioms Bmc.Proofs.C10.lost_sessionless_retries
 #print axioms Bmc.Proofs.C10.unserialisable_sends_nothing
+#print axioms Bmc.Proofs.C10.busy_then_final
